@@ -16,14 +16,17 @@ LEVEL_TEXT = ("Bounded contract on the real is_type_compatible / Pipeline type v
               "such annotations directly, through element-wise maps and through reductions. The code is `typing` "
               "introspection (get_origin/get_args/isinstance on annotation objects), which has no semantics in the "
               "proof rung: no deductive part ('exploration').")
+LEVEL_TEXT += (" Proved part (pyvc), relative to the verdict on component types (is_type_compatible as an assumed pure relation): the combination rules of the statement - _all_types_compatible (union into union: every source member is accepted by some target member) and _compare_generic_type_args (unparametrised on either side: compatible; otherwise covariant, argument by argument). The sentence 'no deductive part' above refers to is_type_compatible itself.")
 LEVEL_NOTE = ("Bounds: atoms {int,bool,float,str,bytes,NoneType}, constructors list/set/tuple(2)/dict/Union/Optional/"
               "Annotated/Array/TypeVar, depth <=2 exhaustive for pairs (sampled at depth 3 in the thorough tier). Reading "
               "fixed here (from the statement 'every value of type A is acceptable where B is required'): Any as a source "
               "is only accepted by Any / missing annotation / TypeVar; bool is a subclass of int; no numeric tower.")
-TECHNIQUE = "bounded contract checking against a reference subtype relation (no deductive part)"
+TECHNIQUE = ("bounded contract checking against a reference subtype relation; the combinators _all_types_compatible and "
+             "_compare_generic_type_args discharged by z3 relative to the verdict on component types")
 EXPLANATION = LEVEL_TEXT
 RULE = ("all ordered pairs of generated annotations; distinct = distinct (A, B); non-trivial = A or B is not an atom")
-TRUSTED_BASE = ["reference subtype relation in props/C16.py"]
+TRUSTED_BASE = ["reference subtype relation in props/C16.py", "pyvc/z3 for the two combinators",
+                "is_type_compatible on component types (assumed pure relation in the combinator proofs)"]
 ASSUMPTIONS = ["annotations are resolved objects (no forward references)"]
 
 NoneT = type(None)
